@@ -220,17 +220,17 @@ Qed.
 Lemma has_rule_syms_ins : forall pl ss k off a m, has_rule (syms_ins pl k off ss a) m = has_rule a m.
 Proof. intros. unfold has_rule. destruct (syms_ins_frame pl ss k off a) as [H _]. rewrite H. reflexivity. Qed.
 
-Lemma prod_eff_inv : forall fa D pl rn off p a,
-  tok_inv D a -> tok_inv D (prod_eff fa pl rn off p a).
+Lemma prod_eff_inv : forall fa fp D pl rn off p a,
+  tok_inv D a -> tok_inv D (prod_eff fa fp pl rn off p a).
 Proof.
-  intros fa D pl rn off p a H. unfold prod_eff. apply tok_inv_add_prod_t.
+  intros fa fp D pl rn off p a H. unfold prod_eff. apply tok_inv_add_prod_t.
   destruct (ap_prec p); [apply tok_inv_tokens_insert|]; apply tok_inv_syms_ins; exact H.
 Qed.
 
-Lemma prod_eff_has_rule : forall fa pl rn off p a m,
-  has_rule (prod_eff fa pl rn off p a) m = has_rule a m.
+Lemma prod_eff_has_rule : forall fa fp pl rn off p a m,
+  has_rule (prod_eff fa fp pl rn off p a) m = has_rule a m.
 Proof.
-  intros fa pl rn off p a m. unfold prod_eff.
+  intros fa fp pl rn off p a m. unfold prod_eff.
   destruct (add_prod_t_frame
               (match ap_prec p with
                | Some t => tokens_insert (syms_ins pl 0 (prod_o0 pl off p) (ap_syms p) a) t
@@ -238,16 +238,16 @@ Proof.
                | None => syms_ins pl 0 (prod_o0 pl off p) (ap_syms p) a
                end) rn (syms_out pl 0 (prod_o0 pl off p) (ap_syms p)) (ap_prec p)
               (match ap_action p with Some t => Some (t, act_span fa pl (prod_o2 pl off p) t) | None => None end)
-              (off, match prod_pend pl off p with Some e => e | None => prod_o3 pl off p end)) as [_ [_ [_ H]]].
+              (off, match prod_pend fp pl off p with Some e => e | None => prod_o3 pl off p end)) as [_ [_ [_ H]]].
   rewrite H. destruct (ap_prec p); rewrite ?has_rule_tokens_insert; apply has_rule_syms_ins.
 Qed.
 
-Lemma prods_eff_inv : forall fa D rl rn ps pi off a,
-  tok_inv D a -> tok_inv D (prods_eff fa rl rn pi off ps a).
+Lemma prods_eff_inv : forall fa fp D rl rn ps pi off a,
+  tok_inv D a -> tok_inv D (prods_eff fa fp rl rn pi off ps a).
 Proof.
-  intros fa D rl rn ps. induction ps as [|p ps IH]; intros pi off a H; cbn [prods_eff]; [exact H|].
+  intros fa fp D rl rn ps. induction ps as [|p ps IH]; intros pi off a H; cbn [prods_eff]; [exact H|].
   apply IH. apply prod_eff_inv. exact H.
 Qed.
 
-Lemma rule_eff_inv : forall fa D rl off at_ r a, tok_inv D a -> tok_inv D (rule_eff fa rl off at_ r a).
+Lemma rule_eff_inv : forall fa fp D rl off at_ r a, tok_inv D a -> tok_inv D (rule_eff fa fp rl off at_ r a).
 Proof. intros. unfold rule_eff. apply prods_eff_inv. apply tok_inv_rule_head. assumption. Qed.
